@@ -144,8 +144,10 @@ pub fn family_from(v: &Value) -> MetricFamily {
     if let Some(h) = v.get("help").and_then(|x| x.as_str()) {
         mf.set_help(h.to_owned());
     }
-    let t = type_from(v.get("type").and_then(|x| x.as_str()).unwrap_or("COUNTER"));
-    mf.set_field_type(t);
+    // an absent "type" leaves the field unset (the data model's default applies)
+    if let Some(t) = v.get("type").and_then(|x| x.as_str()) {
+        mf.set_field_type(type_from(t));
+    }
     let mut ms = vec![];
     for m in v.get("metrics").and_then(|x| x.as_array()).cloned().unwrap_or_default() {
         let mut lps = vec![];
